@@ -202,9 +202,66 @@ def rule_first(ctx):
                       "consulted once with the received stanza in %d path classes; nothing else happens when it answers True" % asked_total)
 
 
+def semantic_registrations(repo):
+    """what each protocol layer actually registers, found by sending every concrete entity class through the default
+    protocol group (all optional modules present) and reading the layers' registries afterwards:
+    layer class name -> [(entity class, success callback value, error callback value)]"""
+    from ..absint import enumerate_cells, Budget
+    from ..routing import GroupSim, concrete_entity_classes
+    from ..stackmodel import FLAGS
+    out = {}
+    sim = GroupSim(repo, {f: True for f in FLAGS})
+    for c in concrete_entity_classes(repo):
+        try:
+            res = enumerate_cells(lambda cell, d: sim.send(c, cell, d), {}, max_cells=400)
+        except Budget:
+            continue
+        for _cell, rs in res:
+            for (lc, _ent, okcb, errcb) in rs.get("registrations", []) or []:
+                out.setdefault(lc.name, {})[c.name] = (c, okcb, errcb)
+    return {k: list(v.values()) for k, v in out.items()}
+
+
+def callback_value_problems(repo, cb):
+    """why a registered callback value cannot be called with (reply, original request); [] when it can"""
+    if cb[0] == "c" and cb[1] is None:
+        return []
+    if cb[0] == "bound" and cb[1][0] == "obj" and cb[1][1].cls is not None:
+        k, target = repo.find_method(cb[1][1].cls, cb[2])
+        if target is None:
+            return ["%s has no method %s" % (cb[1][1].cls.name, cb[2])]
+        return bind_problems(target, None, not func_is_static(target), extra_positional=2)
+    if cb[0] == "closure":
+        fn = cb[1]
+        if isinstance(fn, ast.Lambda):
+            return [] if len(fn.args.args) == 2 or fn.args.vararg else ["lambda takes %d parameter(s)" % len(fn.args.args)]
+        return bind_problems(fn, None, False, extra_positional=2)
+    return ["not a callable the analysis knows (%s)" % show(cb)[:40]]
+
+
 def rule_cb(ctx):
     repo = ctx.repo
     n = 0
+    sem_cache = []
+
+    def by_execution(c, w, what):
+        """the callbacks of a registration the source does not name directly (taken from a table, a tuple, a helper): the
+        registrations this layer makes when every entity class is sent through it, each checked as a value"""
+        if not sem_cache:
+            try:
+                sem_cache.append(semantic_registrations(repo))
+            except Exception as x:      # noqa: the execution is an aid; without it the callback stays unresolved
+                sem_cache.append({})
+        regs = sem_cache[0].get(c.name) or []
+        if not regs:
+            ctx.undecided("C08.cb", w, what, "callback could not be resolved")
+            return 0
+        for ec, okcb, errcb in regs:
+            for role, cb in (("result", okcb), ("error", errcb)):
+                probs = callback_value_problems(repo, cb)
+                ctx.check("C08.cb", not probs, w, "%s callback registered for %s" % (role, ec.name), "registered callback cannot be called with (reply, original request): %s" % "; ".join(probs), "binds (reply, original request)")
+        return 2 * len(regs)
+    executed = set()
     for m in repo.modules.values():
         if "/demos/" in m.relpath:
             continue
@@ -226,8 +283,9 @@ def rule_cb(ctx):
                                 for x in ast.walk(ce):
                                     if isinstance(x, ast.Constant) and isinstance(x.value, str) and repo.find_method(c, x.value)[1] is not None:
                                         names.add(x.value)
-                        if not names:
-                            ctx.undecided("C08.cb", where(m.relpath, c.name + "." + fname, call.lineno), starred[0], "callback could not be resolved")
+                        if not names and (c.name, fname) not in executed:
+                            executed.add((c.name, fname))
+                            n += by_execution(c, where(m.relpath, c.name + "." + fname, call.lineno), starred[0])
                         for nm in sorted(names):
                             n += 1
                             k_, target = repo.find_method(c, nm)
@@ -267,7 +325,9 @@ def rule_cb(ctx):
                                             if isinstance(x, ast.Constant) and isinstance(x.value, str) and repo.find_method(c, x.value)[1] is not None:
                                                 names.add(x.value)
                             if not names:
-                                ctx.undecided("C08.cb", w, cb, "callback could not be resolved")
+                                if (c.name, fname) not in executed:
+                                    executed.add((c.name, fname))
+                                    n += by_execution(c, w, cb)
                                 continue
                             for nm in sorted(names):
                                 k_, tgt = repo.find_method(c, nm)
